@@ -480,6 +480,21 @@ def play(root, tmp, spec, steps, clock):
     return codes
 
 
+def renumber(hroot, old, new):
+    """give generation `old` of the history at hroot the number `new` (file name and chain entry; the chain's digest of
+    the manifest is a content digest and stays valid) - the way to reach five-digit and non-contiguous numbers"""
+    mf = next(m for m in W.manifests(hroot) if os.path.basename(m).startswith(f"{old:04d}_"))
+    name = os.path.basename(mf)
+    new_name = f"{new:04d}" + name[4:]
+    os.rename(mf, os.path.join(os.path.dirname(mf), new_name))
+    cp = W.chain_path(hroot)
+    with open(cp, encoding="utf-8") as fh:
+        text = fh.read()
+    assert text.count(name) == 1 and text.count(f'sequencenr="{old}"') == 1
+    with open(cp, "w", encoding="utf-8") as fh:
+        fh.write(text.replace(name, new_name).replace(f'sequencenr="{old}"', f'sequencenr="{new}"'))
+
+
 def tree_files(root):
     """(files, directories) below root, relative, ascmhl folders left out"""
     fs, ds = [], []
@@ -810,7 +825,7 @@ def main():
         "sizes 0 and 2^20-1..2^20+1), <= 4 nested histories up to 3 deep, 12 scripts of <= 12 generations (27 thorough): format mixes, "
         "failed generations in several orders, -sf and -n generations, renames (-dr), files added / removed / never recorded, ignore "
         "patterns (-i, -ii, slash, negation), nested histories sealed on their own or created late, 6 time zones incl. POSIX DST strings; "
-        "create killed at every file-system event followed by verify + create; 25 no-history questions",
+        "one history renumbered by hand to generations 1, 9999, 10000, 10001; create killed at every file-system event followed by verify + create; 28 no-history questions; a regular file called ascmhl next to recorded files",
     )
     clock = Clock()
     try:
@@ -839,6 +854,18 @@ def main():
                     set_tz(ORIG_TZ)
                     shutil.rmtree(tmp, ignore_errors=True)
         set_tz(ORIG_TZ)
+        # ---- generation numbers beyond four digits and with a gap (outer history 1, 9999, 10000, 10001; nested 1..5)
+        wid = "deep/1/renumbered"
+        if run.only is None or run.only.startswith(wid + "/"):
+            tmp = os.path.join(run.tmp, "renumbered")
+            root = os.path.join(tmp, "t")
+            clock.reset()
+            _GENS.clear()
+            play(root, tmp, TREES["deep"], [C("A", ["xxh64"]), C("", ["md5"]), C("", ["c4"])], clock)
+            renumber(root, 2, 9999)
+            play(root, tmp, {}, [C("", ["xxh64"]), ("W", "A/a.txt", "CHANGED"), C("", ["md5"], ["-n"])], clock)
+            query_world(run, wid, root, tmp, run.tier)
+            shutil.rmtree(tmp, ignore_errors=True)
         if run.only is None or run.only.startswith(("nohistory/", "lookalike/")):
             nohistory_part(run, clock)
         if run.only is None or run.only.startswith("crash/"):
